@@ -52,7 +52,13 @@ void run_poly(const char* name, bool nnc) {
     bool loses = !(y2.contains(x));      // plain widening differs from y2
     symrt::require((tp == 0) == loses, tag + ": a token is consumed iff the plain widening loses precision");
     if (tp == 0) same(t, y2, tag + ": widening with a consumed token changed the object");
-    else same(t, x, tag + ": widening with an unused token differs from the plain widening"); }
+    else same(t, x, tag + ": widening with an unused token differs from the plain widening");
+    // the same on a receiver that only has its generators (the CH78 shortcut of the implementation)
+    unsigned tq = 2; PH tg(y2.generators()); if (symrt::flag("tgpend")) tg.add_generator(*y2.generators().begin());
+    widen(tg, y1b, &tq);
+    symrt::require((tq == 1) == loses && tq >= 1, tag + ": a token is consumed iff the plain widening loses precision (receiver described by generators)");
+    if (tq == 1) same(tg, y2, tag + ": widening with a consumed token changed the object (receiver described by generators)");
+    else same(tg, x, tag + ": widening with an unused token differs from the plain widening (receiver described by generators)"); }
   // limited extrapolation: between y2 and the plain widening; keeps the supplied constraints that y2 satisfies
   { SymRow lr = sym_row("lim", n, 1, Bb, 2); Constraint_System lcs; lcs.insert(row_constraint(lr));
     PH l(y2); if (w == 0) l.limited_H79_extrapolation_assign(y1, lcs); else l.limited_BHRZ03_extrapolation_assign(y1, lcs);
